@@ -685,11 +685,15 @@ def gen_trace(seed):
         spec["base"] = [round(r.uniform(-3, 3), 3) for _ in range(3)] + [round(r.uniform(-1.5, 1.5), 3) for _ in range(3)]
     if kind == "chain":
         n = len(spec["axes"])
-        lim = r.choice(["pi", "wide", "narrow", "asym"])
+        lim = r.choice(["pi", "wide", "narrow", "asym", "asym_wide"])
         if lim == "wide":
             spec["mins"], spec["maxs"] = [-2 * math.pi] * n, [2 * math.pi] * n
         elif lim == "narrow":
             spec["mins"], spec["maxs"] = [-1.0] * n, [1.2] * n
+        elif lim == "asym_wide":
+            # a full turn (or more) of travel, not centred on zero: e.g. [-pi/2, 3pi/2], [0, 2pi]
+            spec["mins"] = [round(-r.uniform(0.0, 2.5), 3) for _ in range(n)]
+            spec["maxs"] = [round(spec["mins"][j] + r.uniform(2 * math.pi, 2 * math.pi + 2.0), 3) for j in range(n)]
         elif lim == "asym":
             spec["mins"] = [round(-r.uniform(0.4, 3.0), 3) for _ in range(n)]
             spec["maxs"] = [round(r.uniform(0.4, 3.0), 3) for _ in range(n)]
@@ -853,9 +857,15 @@ def gen_trace(seed):
             if ro.random() < 0.7:
                 steps.append({"op": "FK", "theta": [round(x, 6) for x in in_limits(1.0)]})
         elif k == "limits":
-            shrink = ro.uniform(0.5, 1.0)
-            mins = mins * shrink
-            maxs = maxs * shrink
+            if ro.random() < 0.5:
+                shrink = ro.uniform(0.5, 1.0)
+                mins = mins * shrink
+                maxs = maxs * shrink
+            else:
+                # move the window (a joint-zero offset): limits that are no longer symmetric about zero
+                shift = np.array([ro.uniform(-1.5, 1.5) for _ in range(n)])
+                mins = mins + shift
+                maxs = maxs + shift
             steps.append({"op": "limits", "mins": [float(x) for x in mins], "maxs": [float(x) for x in maxs]})
         elif k == "tol":
             t2 = tol_step()
